@@ -108,6 +108,14 @@ class Events(core.Scenario):
             w.http('GET', peer.BASEQ, headers={'X-Reject': '1' if p['reject_first'] is True else p['reject_first']})
             w.run()
             self.rejected_sid = ([e[1] for e in w.events if e[0] == 'connect'] or [None])[0]
+        if p.get('disc_all_first'):
+            # an earlier generation: a session came and went, then the application disconnected "everybody" (empty table)
+            s0 = peer.sid_of(peer.open_polling(w))
+            peer.post(w, s0, '1')
+            w.http('GET', peer.BASEQ + '&sid=' + s0)
+            w.run()
+            w.call('disconnect')
+            w.run()
         if tr == 'ws_only':
             self.ws = peer.ws_open(w)
             self.A = [e[1] for e in w.events if e[0] == 'connect'][-1]
@@ -320,6 +328,7 @@ def param_list(ctx):
                 ps.append({'impl': impl, 'transport': tr, 'causes': cs, 'dh': 'kick_other'})
                 ps.append({'impl': impl, 'transport': tr, 'causes': cs, 'dh': 'send_stale', 'bystander_first': True})
             ps.append({'impl': impl, 'transport': tr, 'causes': ['silence'], 'dh': 'record', 'reject_first': True})
+            ps.append({'impl': impl, 'transport': tr, 'causes': ['silence'], 'dh': 'record', 'disc_all_first': True})
             ps.append({'impl': impl, 'transport': tr, 'causes': [causes[0]], 'dh': 'record', 'reject_first': True})
             ps.append({'impl': impl, 'transport': tr, 'causes': [causes[0]], 'dh': 'record', 'reject_first': 'type'})
             # a MESSAGE that may be delivered while the disconnect handler of another cause is suspended
